@@ -70,7 +70,12 @@ def build(run):
             run.add(Obl(f"{fq}/ensures.monotone", pre + [iny(y2), y.v <= y2.v] + ax.axioms(),
                         z3.And(z3.Implies(inc, xr.le(z, z2)), z3.Implies(dec, xr.ge(z, z2))), fn=fq, meta=dict(rp("tsukamoto.monotone", ["y", "y2"]), **uf())))
         except Unsupported as ex_:
-            run.add(undecided(f"{fq}/subset", f"outside the verified subset: {ex_}", fn=fq, meta=rp("tsukamoto.elementwise", ["y", "y2"])))
+            run.add(undecided(f"{fq}/subset", f"outside the verified subset: {ex_}", fn=fq,
+                              meta={"replay": {"module": "contracts.terms", "func": "replay_sampled", "kwargs": {"cls": cls, "what": "tsukamoto", "budget": 200}, "vars": {}}}))
+    nb = 60 if run.tier == "quick" else 1500
+    run.bounded("term.*.tsukamoto/sampled_roundtrip.runtime", "contracts.terms", "replay_sampled", [dict(what="tsukamoto", seed=run.seed, budget=nb)],
+                bound=f"{nb} sampled valid parameter vectors per monotonic class (several heights) x activation degrees in (0, height): finite, membership(tsukamoto(y)) = y, "
+                      "monotone, arrays against the degrees one by one", first_failure=True)
 
 
 if __name__ == "__main__":
